@@ -273,9 +273,10 @@ def load_image(inf, spacing=None, medium_index=None, illum_wavelen=None,
                 if channel.max() <=2:
                     channel = [['red','green','blue'][c] for c in channel]
                 extra_dims = {illumination: channel}
-                if illum_wavelen is not None and not isinstance(illum_wavelen,dict) and len(ensure_array(illum_wavelen)) == len(channel):
+                # (arrays that carry their own channel labels are matched by label)
+                if illum_wavelen is not None and not isinstance(illum_wavelen, (dict, xr.DataArray)) and len(ensure_array(illum_wavelen)) == len(channel):
                     illum_wavelen = xr.DataArray(ensure_array(illum_wavelen), dims=illumination, coords=extra_dims)
-                if not isinstance(illum_polarization, dict) and np.array(illum_polarization).ndim == 2:
+                if not isinstance(illum_polarization, (dict, xr.DataArray)) and np.array(illum_polarization).ndim == 2:
                     pol_index = xr.DataArray(channel, dims=illumination, name=illumination)
                     illum_polarization=xr.concat([to_vector(pol) for pol in illum_polarization], pol_index)
 
